@@ -455,7 +455,7 @@ class Clump(Relation):
     coq_case_type = "ccase"
     coq_model = "model_clump"
     coq_imports = ["PearsonQ", "C17_Model"]
-    budget = {"quick": 800, "thorough": 6000}
+    budget = {"quick": 640, "thorough": 6000}
     max_cases_per_shard = 50
     timeout_per_case = 40
     anchors = [("haptools/clump.py", "SummaryStats.Load"), ("haptools/clump.py", "SummaryStats.GetNextIndexVariant"),
@@ -569,8 +569,17 @@ class Clump(Relation):
         rank = {s: i for i, s in enumerate(names)}
         pr = lambda c: f"({L.z(c[0])}, {L.z(c[1])})"
 
+        # long rational literals (1e-300 has 300-digit terms; Coq parses ~12 k characters per second) are bound once
+        # per case by a let and referred to by name
+        qtab = {}
+
+        def qq(x):
+            fr = Fraction(x)
+            lit = L.q(fr)
+            return lit if len(lit) < 28 else qtab.setdefault(fr, f"q{len(qtab)}")
+
         def cell(tok):
-            return f"(mkcell {toks(tok)} {L.opt(_parse_int(tok), L.z)} {L.opt(_parse_float(tok), L.q)})"
+            return f"(mkcell {toks(tok)} {L.opt(_parse_int(tok), L.z)} {L.opt(_parse_float(tok), qq)})"
 
         def tab(t):
             if t is None:
@@ -587,11 +596,11 @@ class Clump(Relation):
         h2, r2 = tab(cfg["stats_str"])
         f = cfg["fields"]
         fields = f"(mkf {toks(f['id'])} {toks(f['p'])} {toks(f['chrom'])} {toks(f['pos'])})"
-        k = (f"(mkcfg {h1} {r1} {h2} {r2} {fields} {L.q(float(cfg['p1']))} {L.q(float(cfg['p2']))} "
-             f"{L.q(float(cfg['r2']))} {L.b(cfg['ld'] == 'Exact')} "
+        k = (f"(mkcfg {h1} {r1} {h2} {r2} {fields} {qq(float(cfg['p1']))} {qq(float(cfg['p2']))} "
+             f"{qq(float(cfg['r2']))} {L.b(cfg['ld'] == 'Exact')} "
              f"{gset(cfg['snp'], lambda v: v['calls'])} {gset(cfg['str'], str_values)})")
         # clump_kb: the float64 the code receives (bit exact) and the decimal typed
-        kbf, kbdec = L.hexfloat(float(cfg["kb"])), L.q(Fraction(cfg["kb"]))
+        kbf, kbdec = L.hexfloat(float(cfg["kb"])), qq(Fraction(cfg["kb"]))
         if not isinstance(obs, dict) or ("ok" not in obs and "err" not in obs):
             obs = {"err": (obs or {}).get("kind", 99), "table": []}
         table = []
@@ -604,7 +613,7 @@ class Clump(Relation):
         if "ok" in obs:
             try:
                 def vrow(i, c, pos, pv, ty):
-                    return (f"({toks(i)}, {toks(c)}, {L.z(int(pos))}, {L.q(Fraction(float(pv)))}, "
+                    return (f"({toks(i)}, {toks(c)}, {L.z(int(pos))}, {qq(Fraction(float(pv)))}, "
                             f"{L.z({'SNP': 0, 'STR': 1}[ty])})")
 
                 o = "(Ok " + L.lst(obs["ok"], lambda r: f"({vrow(r[0], r[2], r[3], r[4], r[5])}, "
@@ -613,7 +622,10 @@ class Clump(Relation):
                 o = "(Err 97)"
         else:
             o = L.res(obs)
-        return f"(mkcc {k} {kbf} {kbdec} {L.lst(table)} {o})"
+        term = f"(mkcc {k} {kbf} {kbdec} {L.lst(table)} {o})"
+        if qtab:
+            term = "(" + " ".join(f"let {n} := {L.q(fr)} in" for fr, n in qtab.items()) + " " + term + ")"
+        return term
 
     def nontrivial(self, cfg, obs):
         if cfg["kind"] not in ("wellformed", "exhaustive", "blank-line", "duplicate-id") or not isinstance(obs, dict) or "ok" not in obs:
@@ -861,19 +873,39 @@ class ComputeLDRel(Relation):
 RELATIONS = [Clump(), ComputeLDRel()]
 
 LEVEL_TEXT = (
-    "Coq theorems over all summary-statistic tables, thresholds and r^2 oracles for a Gallina model of clump.py's "
-    "main loop (termination with fuel = number of variants, greedy characterisation of every clump, disjointness), "
+    "Coq theorems over all summary-statistic tables, thresholds, window predicates and r^2 oracles for a Gallina model of "
+    "clump.py's main loop (termination with fuel = number of variants, greedy characterisation of every clump, "
+    "disjointness by row and by ID), composed into a theorem about the model of clumpstr as a whole with the Pearson "
+    "oracle (tables loaded with p <= p2, genotype lookup, r^2 test, greedy clumping of the loaded statistics), "
     "over all dosage vectors for Pearson r^2 (in [0,1], Cauchy-Schwarz over Q) and over all 3x3 genotype tables for the "
     "exact-LD formulas (the no-double-heterozygote frequency is a root of the cubic and gives the haplotype r^2; "
-    "r^2(f00) in [0,1] on the admissible interval); the model is tied to /repo on every run by evaluating inside Coq "
-    "model-vs-implementation agreement and the property's finite checker on generated clumpstr runs and ComputeLD calls."
+    "r^2(f00) in [0,1] on the admissible interval; the cubic changes sign on it); the model is tied to /repo on every run "
+    "by evaluating inside Coq model-vs-implementation agreement (window test in the code's float64 arithmetic, all six "
+    "columns of every .clump row) and the property's finite checker (window as the rational test |dpos|/1000 < kb) on "
+    "generated clumpstr runs and ComputeLD calls."
 )
 LEVEL_NOTE = (
-    "Partial: ComputeExactLD's floating-point cubic solver and its choice among several admissible roots are not "
-    "verified; the root it used is recorded and checked in Coq (in the admissible interval, residual of the model's "
-    "cubic <= 1e-9*n, returned r^2 = the model's formula at that root to 6 decimals), the result must lie in [0,1] and be "
+    "Partial: (1) the theorems hold for every window predicate; that the code's float64 test abs(dpos)/1000 < kb "
+    "(win_float, the instance the correspondence uses) implies the rational test and differs from it only where the "
+    "float64 quotient rounds to kb itself is NOT proved for all inputs (it needs the IEEE-754 specification of "
+    "PrimFloat.div, i.e. Coq's FloatAxioms) - it is evaluated on every pair of loaded variants of every case "
+    "(window_link, part of agree). holds demands membership where the variant is strictly within the window under both "
+    "readings of the user's kb (the decimal typed and the float64 it parses to) and non-membership where it is within "
+    "under neither; where they differ (distance equal to the decimal typed while the float64 lies above it, e.g. "
+    "--clump-kb 0.1 and 100 bp, which the code excludes) it demands nothing. "
+    "(2) C17_clumpstr_is_greedy composes loading, genotype lookup and the Pearson test with the greedy theorem; header "
+    "lookup by name and the Exact-mode oracle (recorded values) are outside it. "
+    "(3) ComputeExactLD's floating-point cubic solver and its choice among several admissible roots are not "
+    "verified; the roots it found are recorded and checked in Coq (every root it reports has residual <= 1e-9*n in the "
+    "model's cubic; the one used lies in the admissible interval and the returned r^2 = the model's formula at that root to "
+    "6 decimals), the result must lie in [0,1] and be "
     "within 1e-6 of the exact haplotype r^2 when no sample is doubly heterozygous; in Exact mode the clump relation uses "
-    "the r^2 values recorded from ComputeLD. numpy.corrcoef is compared within 1e-9 of the exact rational r^2. "
-    "STR genotypes given as PGEN need the un-indexed-read fix (fixes/C07_unindexed_read.patch) to be read at all."
+    "the r^2 values recorded from ComputeLD. Although an admissible root always exists (C17_exact_cubic_sign_change), the "
+    "solver can lose it when the cubic has a double root and rounding makes yN^2 marginally exceed h^2 (one real root "
+    "reported, the simple one, outside the interval): r^2 = 0 is then returned and accepted here, since the property "
+    "demands only [0,1] in the presence of double heterozygotes (e.g. dosage pairs (0,1),(0,2),(0,2),(1,1),(1,2),(1,2),(1,2)). "
+    "numpy.corrcoef is compared within 1e-9 of the exact rational r^2. "
+    "STR genotypes given as PGEN need the un-indexed-read fix (fixes/C07_unindexed_read.patch) to be read at all. "
+    "The double-root branch of ComputeExactLD needs fixes/C17_exact_double_root.patch (witnesses corpus/C17/exact_double_root_*)."
 )
 TECHNIQUE = "Coq proofs (fuel-based loop invariants, Cauchy-Schwarz over Z/Q, field identities) + vm_compute-evaluated correspondence"
